@@ -302,6 +302,12 @@ def r1(p, rep):
                 if len(a.targets) == 1 and isinstance(a.targets[0], ast.Name) and a.value is node and only_feeds_raise(f, a.targets[0].id, a):
                     rep.ok("C16.R1", key, site, f"{a.targets[0].id} only feeds a raise")
                     continue
+            # (c') the ordered copy is only measured, or read under a test that it has exactly one element
+            if kind in ("listcomp", "list", "tuple") and isinstance(_stmt_of(node), ast.Assign):
+                a = _stmt_of(node)
+                if len(a.targets) == 1 and isinstance(a.targets[0], ast.Name) and a.value is node and _only_singleton_reads(f, cfg, a.targets[0].id, a):
+                    rep.ok("C16.R1", key, site, f"{a.targets[0].id} is only measured with len() or read where len({a.targets[0].id}) == 1 holds: the order of one element is not observable")
+                    continue
             # (d) commutative loop
             if kind == "for":
                 ok, why = commutative_loop(f, node)
@@ -326,6 +332,29 @@ def r1(p, rep):
         raise AnalysisError(f"only {n_sets} set-typed consumptions found; the set-type inference no longer sees the code")
     rep.assume("the solution set of an equation system does not depend on the order of its equations (sympy)")
     rep.assume("dict iteration order is insertion order (Python >= 3.7); only set/frozenset iteration depends on hashing")
+
+
+def _only_singleton_reads(f, cfg, name, assign):
+    """every read of the local `name` (bound once, by `assign`) is `len(name)`, a membership test, or happens under a
+    dominating fact that bounds len(name) to exactly one"""
+    stores = [x for x in walk_no_nested(f.node) if isinstance(x, ast.Name) and x.id == name and not isinstance(x.ctx, ast.Load)]
+    if len(stores) != 1:
+        return False
+    loads = [x for x in walk_no_nested(f.node) if isinstance(x, ast.Name) and x.id == name and isinstance(x.ctx, ast.Load)]
+    if not loads:
+        return False
+    for x in loads:
+        par = getattr(x, "_parent", None)
+        if isinstance(par, ast.Call) and isinstance(par.func, ast.Name) and par.func.id == "len":
+            continue
+        if isinstance(par, ast.Compare) and x in par.comparators and all(isinstance(o, (ast.In, ast.NotIn)) for o in par.ops):
+            continue
+        facts = cfg.guards_of_ast(x)
+        lo, hi = common.len_bounds(facts, name)
+        if lo == 1 and hi == 1:
+            continue
+        return False
+    return True
 
 
 def _order_free_argument(call, arg):
